@@ -1,5 +1,5 @@
 """Per-property checks. Each returns the process exit code (0 / 1)."""
-import os, sys, json, time, random, hashlib, shutil
+import os, sys, json, time, random, hashlib, shutil, subprocess
 import vlib, gen
 from vlib import Report, RunDir, run_many, first_problem, describe_problem, shrink
 
@@ -1198,9 +1198,100 @@ def check_c15(tier, seed):
         rd.cleanup()
 
 
+# ----------------------------------------------------------------------------------------------
+# C14: borrowed data cannot outlive its transaction
+# ----------------------------------------------------------------------------------------------
+def check_c14(tier, seed):
+    import clients
+    rep = Report("C14", tier, seed, "proof")
+    b = vlib.build(release=False, need_api=True)
+    gate = vlib.proof_gate("C14", b)
+    rd = RunDir()
+    failed = 0
+    try:
+        if b.cargo_ok and b.extract_ok and b.gen_ok:
+            rows = clients.api_rows()
+            crate = os.path.join(vlib.CACHE, "clients")
+            progs, uncovered = clients.build_corpus(crate, rows)
+            codes = clients.rustc_verdicts(crate)
+            verdicts = {}
+            reported = 0
+
+            def viol(what, obj, no_input=False):
+                nonlocal failed, reported
+                failed += 1
+                if reported < 3:
+                    reported += 1
+                    rep.violation(what, dict(kind="client-program", property="C14", **obj), no_input=no_input)
+
+            for name, (src, want, key) in sorted(progs.items()):
+                cs = set(codes.get(name, []))
+                rep.count(name, src, True)
+                got = "ok" if not cs else ("borrow" if cs & clients.BORROW_CODES else ("send" if cs & clients.SEND_CODES else "other:" + ",".join(sorted(cs))))
+                verdicts[name] = (want, got)
+                if want == "dangerous":
+                    viol("%s: the model finds a result of %s that may point into the map and is not tied to the transaction borrow; rustc %s the program that "
+                         "carries it out" % (name, key, "accepts" if got == "ok" else "rejects (%s)" % got), dict(program=name, source=src.split("\n"), api=key, rustc=sorted(cs)))
+                elif want == "borrow" and got == "ok":
+                    viol("%s: compiles, but the value of %s escapes its transaction (model: anchored; rustc: accepted)" % (name, key),
+                         dict(program=name, source=src.split("\n"), api=key))
+                elif want == "send" and got != "send":
+                    viol("%s: moving a transaction-derived value to another thread is not rejected with a Send/Sync error (rustc: %s)" % (name, got),
+                         dict(program=name, source=src.split("\n")))
+                elif want == "ok" and got != "ok":
+                    viol("%s: ordinary correct usage does not compile (rustc: %s)" % (name, got), dict(program=name, source=src.split("\n"), rustc=sorted(cs)))
+                elif want == "borrow" and got.startswith("other"):
+                    viol("corpus program %s fails for an unrelated reason (%s): the corpus no longer matches the API" % (name, got),
+                         dict(program=name, source=src.split("\n"), rustc=sorted(cs)), no_input=True)
+            if uncovered:
+                viol("public API functions with map-pointing results that the client corpus has no recipe for: %s" % uncovered[:6],
+                     dict(uncovered=[list(u) for u in uncovered]), no_input=True)
+            # probe runs for the escapes that compile (owned results): bytes must not change while the file is remapped and pages reused
+            pcrate = os.path.join(vlib.CACHE, "probe")
+            shutil.rmtree(pcrate, ignore_errors=True)
+            os.makedirs(os.path.join(pcrate, "src", "bin"))
+            shutil.copyfile(os.path.join(crate, "Cargo.toml"), os.path.join(pcrate, "Cargo.toml"))
+            shutil.copyfile(os.path.join(crate, "Cargo.lock"), os.path.join(pcrate, "Cargo.lock"))
+            probes = {"probe_to_bytes_value": "nm.to_bytes()", "probe_to_bytes_ref": "(&nm).to_bytes()"}
+            for pn, expr in probes.items():
+                open(os.path.join(pcrate, "src", "bin", pn + ".rs"), "w").write(clients.PROBE % expr)
+            env = dict(vlib.ENV, CARGO_TARGET_DIR=os.path.join(vlib.CACHE, "clients-target"))
+            rc, out = vlib.sh("cargo build --offline --bins 2>&1 | tail -5", cwd=pcrate, env=env, timeout=900)
+            for pn in probes:
+                exe = os.path.join(vlib.CACHE, "clients-target", "debug", pn)
+                dbp = os.path.join(rd.sub(), "probe.db")
+                rep.count(pn, pn, True)
+                if not os.path.exists(exe):
+                    continue            # does not compile: nothing escapes (the corpus verdicts above judge that)
+                p = subprocess.run([exe, dbp], stdout=subprocess.PIPE, stderr=subprocess.PIPE, text=True, timeout=120)
+                verdicts[pn] = ("same=true", p.stdout.strip()[-80:] + (" rc=%d" % p.returncode))
+                if p.returncode != 0 or "same=true" not in p.stdout:
+                    viol("%s: a value kept past its transaction reads the mapped file after it was remapped / its pages reused: rc=%d %s" % (
+                        pn, p.returncode, (p.stdout + p.stderr).strip()[-200:]),
+                        dict(program=pn, source=(clients.PROBE % probes[pn]).split("\n"), rc=p.returncode, output=(p.stdout + p.stderr)[-400:],
+                             how="cargo build the program against /repo and run it with a scratch database path"))
+            rep.cov["verdicts"] = {k: list(v) for k, v in list(verdicts.items())[:80]}
+            rep.cov["api_functions"] = len(rows)
+        rep.cov["rule"] = ("one client program per (public function with a map-pointing result, escape route in {kept past the scope of the transaction, "
+                           "kept past commit}) generated from the rustdoc-derived API table, plus hand-written programs (transaction outliving its "
+                           "database handle, key / value not living long enough, transaction / bucket / pair / cursor moved to another thread) and "
+                           "positive controls (ordinary usage, cloned database handle across threads, owned copies kept after commit); rustc's error "
+                           "codes must match the verdict of the Coq lifetime-flow check for every program; programs that compile and carry a value "
+                           "out are run in a probe process while the file is remapped and its pages reused; non-trivial = every program")
+        rep.sample(dict(program="esc_bucket_inh_get_kv_commit", expect="rejected: E0505 cannot move out of `tx` because it is borrowed"))
+        rep.cov["traces_validated_against_impl"] = rep.cov["evaluations"]
+        fill_proof_cov(rep, gate, TRUSTED_COMMON + ["tools/gen_api.py + nightly rustdoc JSON (format 57) as the enumeration of the public API",
+                                                    "rustc's borrow checker and Send/Sync rules are trusted (the theorem is about jammdb's signatures)",
+                                                    "the run-time half (no read of the map after the transaction ended) is covered only by probe runs"])
+        gate_or_search(rep, "C14", b, gate, failed > 0)
+        return rep.finish()
+    finally:
+        rd.cleanup()
+
+
 CHECKS = {"C01": check_c01, "C02": check_c02, "C03": check_c03, "C04": check_c04, "C05": check_c05, "C06": check_c06,
           "C07": check_c07, "C08": check_c08, "C09": check_c09, "C10": check_c10, "C11": check_c11, "C12": check_c12,
-          "C13": check_c13, "C15": check_c15, "C16": check_c16}
+          "C13": check_c13, "C14": check_c14, "C15": check_c15, "C16": check_c16}
 
 
 def main(argv):
